@@ -46,7 +46,7 @@ def short(t):
     return f.get("res") or f.get("path") or "indirect"
 
 
-def sites_in(body):
+def sites_in(body, crate=None):
     """list of dicts: {caller, callee, label, file, line, macros, block}"""
     out = []
     for b in range(body.n):
@@ -62,6 +62,8 @@ def sites_in(body):
                         "macros": sp.get("macros") or [], "block": b,
                         "origin": operand_origin(body, t["args"][0]) if t["args"] else "no operand"}
                 site["discharged"] = discharged(body, site)
+                if not site["discharged"] and crate is not None and fn_matches(t, r"quote::__private::mk_ident$"):
+                    site["discharged"] = discharged_with_helpers(crate, body, site)
                 out.append(site)
         elif t["k"] == "assert":
             md = t.get("msg_dbg", "")
@@ -411,8 +413,41 @@ def discharged(body, site):
         cs = [op_const(t["args"][0])] if op_const(t["args"][0]) is not None else [o.get("c") for o in M.origins(body, l)] if l is not None else []
         if cs and all(c and re.match(r"^[A-Za-z_][A-Za-z0-9_]*$", str(c.get("str") or "")) for c in cs):
             return "format_ident! of constant identifier text"
+        # the text is assembled (`format_ident!("{name}")`): every value it can take, read symbolically, is an identifier
+        try:
+            from vlib import symstr as SS
+            v = SS.merge_lits(SS.Sym(None, body).op(t["args"][0]))
+            texts = [""]
+            for a in v:
+                if a[0] == "lit":
+                    texts = [x + a[1] for x in texts]
+                elif a[0] == "alts":
+                    texts = [x + y for x in texts for y in a[1]]
+                else:
+                    texts = None
+                    break
+            if texts and all(re.match(r"^[A-Za-z_][A-Za-z0-9_]*$", x) for x in texts):
+                return "format_ident! of text that is one of the identifiers %s on every path" % sorted(texts)
+        except Exception:
+            pass
     if index_in_range_by_construction(body, t):
         return "index is position(..)/len() of the collection it is applied to"
     if constant_index_guarded(body, t, site["block"]) or switch_on_len_guarded(body, t, site["block"]):
         return "constant index behind a dominating length test on the same place"
+    return None
+
+
+def discharged_with_helpers(crate, body, site):
+    """`discharged`, looked at again with the helpers only this function uses spliced in (a value handed back by a helper -
+    a name out of a table - is then visible)"""
+    if site.get("discharged") or body.kind not in ("Fn", "AssocFn"):
+        return site.get("discharged")
+    ib = crate.ibody(body.path)
+    if ib is None or ib.n == body.n:
+        return None
+    sp = body.term(site["block"]).get("span")
+    for blk in range(ib.n):
+        t = ib.term(blk)
+        if t["k"] == "call" and not ib.is_cleanup(blk) and t.get("span") == sp and short(t) == site["callee"] and not ib.blocks[blk].get("inl"):
+            return discharged(ib, {"block": blk})
     return None
